@@ -768,6 +768,16 @@ func fnKey(fn *ssa.Function) string {
 	return fn.String()
 }
 
+func fnPkgPath(fn *ssa.Function) string {
+	if fn.Pkg != nil {
+		return fn.Pkg.Pkg.Path()
+	}
+	if o := fn.Origin(); o != nil && o.Pkg != nil {
+		return o.Pkg.Pkg.Path()
+	}
+	return ""
+}
+
 func (m *Machine) denied(fn *ssa.Function) bool {
 	if fn.Pkg == nil {
 		o := fn.Origin()
@@ -805,6 +815,10 @@ func (m *Machine) callSSA(caller *frame, callpos token.Pos, fn *ssa.Function, ar
 			m.IntrinsicsHit[key]++
 			fr := &frame{m: m, caller: caller, fn: fn}
 			return in(m, fr, fn, args)
+		}
+		if pp := fnPkgPath(fn); pp != "" && noopPkgs[pp] {
+			m.IntrinsicsHit["noop-package:"+pp]++
+			return zeroResults(fn)
 		}
 		if m.cfg.Merge[key] && m.merge == nil {
 			if r, ok := m.callMerged(caller, callpos, fn, args, env); ok {
@@ -867,8 +881,11 @@ func runFrame(fr *frame) {
 			return // normal return
 		}
 		p := recover()
-		if isAbort(p) {
-			panic(p)
+		if a, ok := p.(abortPath); ok {
+			if (a.Kind == "unmodelled" || a.Kind == "engine") && !strings.Contains(a.Msg, " [in ") {
+				a.Msg += " [in " + fr.fn.String() + posOf(fr) + "]"
+			}
+			panic(a)
 		}
 		if s, ok := p.(string); ok && !strings.HasPrefix(s, "runtime error") {
 			// interpreter-internal failure: not a target panic
